@@ -189,6 +189,9 @@ func vfCheckStreaming(c *vfCtx, vt *vfTable, d []byte, compress bool, r *vfRand)
 	var segs [][]byte
 	start := 0
 	policy := r.Intn(4)
+	if policy == 0 && len(esc) > 200000 {
+		policy = 2 // a million one-byte segments cost gigabytes under the race detector
+	}
 	for i := 0; i < len(esc); i++ {
 		cut := false
 		switch policy {
